@@ -184,11 +184,8 @@ def run(ctx: Ctx, env):
     ctx.floor("pass-through productions", n_pass, 5)
 
     # --- R7: operator tokens have the keyword language of their operator ------------------------------
-    try:
-        from .. import rx
-    except ImportError:  # pragma: no cover
-        rx = None
-    if rx is not None:
+    from .. import rx
+    if True:
         alpha = rx.Alphabet.for_patterns([r.pattern for r in g.rules] + [O.operator_regex(c) for c in op_tokens.values()],
                                          g.reflags, full=(ctx.tier == "thorough"))
         for tok, cls in op_tokens.items():
